@@ -355,10 +355,12 @@ def r3_run_sentinels(ctx: Ctx) -> None:
     ok = False
     if len(nxt) == 1 and len(rets) == 1:
         from ..match import canon
-        rv = canon(ac.node, rets[0].value)
+        from ..match import canon_test, inline, last_assignments
+        rexpr = inline(rets[0].value, last_assignments(ac.node))
+        rt, rpol = canon_test(rexpr)
         conds = gac.path_conditions(nxt[0], ac.node)
         # next() runs exactly when the returned value is true
-        ok = any(t in (rv, f"{rv} is True", f"({rv}) is True") and pol for t, pol in conds)
+        ok = (rt, rpol) in conds or any(t in (f"{unparse(rexpr)} is True", f"({unparse(rexpr)}) is True") and pol for t, pol in conds)
     ctx.check(ok, "Scanner.accept:consumes-when-true", "a successful accept consumes one character: next() is called exactly when the returned value is true")
     for fn in ctx.repo.all_functions():
         if not in_scope(fn):
